@@ -494,7 +494,7 @@ func (b *bb) keyspaceModes() {
 	for _, args := range [][]string{{"PDELHOOK", "*"}, {"PDELCHAN", "*"}} {
 		b.pair(args, false, true)
 	}
-	nprog, plen, nmal := 200, 36, 30
+	nprog, plen, nmal := 150, 32, 20
 	if b.cfg.Tier == "thorough" {
 		nprog, plen, nmal = 1500, 50, 300
 	}
@@ -528,8 +528,9 @@ func (b *bb) keyspaceModes() {
 			S("JDEL", "j", "d", "a.b"), S("JDEL", "j", "d", "nope"), S("JGET", "j", "d", "a.b"), S("SET", "j", "g", "POINT", "1", "2"), S("JSET", "j", "g", "properties.p", "v\"w"), S("GET", "j", "g"), S("JGET", "j", "g", "properties.p"), S("JDEL", "j", "g", "properties.p"), S("JDEL", "j", "g", "properties.p"), S("JSET", "j", "g", "type", "Bogus"), S("JSET", "j", "g", "coordinates", "x"),
 			S("JGET", "j", "g", "coordinates", "RAW"), S("JGET", "j", "g", "coordinates", "BAD")},
 	}
-	// open finding C17-scan-json-path-field (c17_scan_json_path_field_refuted): the JSON arm of SCAN fills the
-	// positional fields array through List.Get, which answers props.speed from inside truck1's JSON field props
+	// regression case of finding C17-scan-json-path-field (repaired: 903e555; c17_scan_json_path_field_pinned_refuted):
+	// the pinned JSON arm of SCAN filled the positional fields array through List.Get, which answers props.speed
+	// from inside truck1's JSON field props; both modes must now show the stored fields
 	corpus = append(corpus, [][]string{S("SET", "fleet", "b", "FIELD", "props.speed", "5", "POINT", "1", "1"),
 		S("SET", "fleet", "truck1", "FIELD", "props", `{"speed":7,"meta":{"x":1}}`, "POINT", "2", "2"),
 		S("SCAN", "fleet", "OBJECTS"), S("SCAN", "fleet", "IDS"), S("GET", "fleet", "truck1", "WITHFIELDS"), S("FGET", "fleet", "truck1", "props.speed"),
